@@ -39,6 +39,7 @@ for sd in sys.argv[1:]:
         'checks_run': {p: {'exit': c['exit'], 'wall_s': c['wall_s'], 'signatures': c['signatures']} for p, c in res.get('checks', {}).items()},
         'caught_by': sorted(caught),
         'history': note.get('history', ''),
+        'neutralised': 'NEUTRALISED' in note.get('history', ''),
     }
     json.dump(meta, open(os.path.join(sd, 'meta.json'), 'w'), indent=1)
     print(name, 'valid' if (res.get('tests_pass_with_patch') and res.get('demo_unpatched_exit') == 0 and res.get('demo_patched_exit')) else 'INVALID',
